@@ -146,37 +146,6 @@ Definition silent_succ (st : cstate) : list cstate :=
     | None => []
     end) (silent_actions st).
 
-(* exactly [depth] silent steps, then the event: all outcomes *)
-Fixpoint dfs (depth : nat) (ev : event) (st : cstate) : list cstate :=
-  match depth with
-  | O => goal ev st
-  | S d => flat_map (dfs d ev) (silent_succ st)
-  end.
-
-Definition max_depth := 9.
-
-(* the outcomes at the smallest depth that has any, and at the [extra] next
-   depths (an internal step that is not yet needed may already have happened) *)
-Definition extra_depth := 2.
-
-Fixpoint collect_depths (ds : list nat) (ev : event) (st : cstate) : list cstate :=
-  match ds with
-  | [] => []
-  | d :: rest => dfs d ev st ++ collect_depths rest ev st
-  end.
-
-Fixpoint shallowest (ds : list nat) (ev : event) (st : cstate) : list cstate :=
-  match ds with
-  | [] => []
-  | d :: rest => match dfs d ev st with
-                 | [] => shallowest rest ev st
-                 | l => l ++ collect_depths (firstn extra_depth rest) ev st
-                 end
-  end.
-
-Definition replay_event (st : cstate) (ev : event) : list cstate :=
-  shallowest (seq 0 (S max_depth)) ev st.
-
 (* ---- a fingerprint of the control part of a state, to merge candidates ---- *)
 Definition code_pstat (p : pstat) : nat := match p with PIdle => 0 | PRun => 1 | PDone => 2 end.
 Definition code_obool (o : option bool) : nat := match o with None => 0 | Some false => 1 | Some true => 2 end.
@@ -238,6 +207,39 @@ Fixpoint dedupe (seen : list (list nat)) (l : list cstate) : list cstate :=
     let f := fingerprint st in
     if existsb (natlist_eqb f) seen then dedupe seen rest else st :: dedupe (f :: seen) rest
   end.
+
+Definition max_depth := 9.
+Definition extra_depth := 2.
+
+(* Breadth-first search over silent steps, one level per step, states merged by
+   fingerprint: the states after the recorded event at the smallest depth that
+   has any, and at the [extra_depth] next depths (an internal step that is not
+   yet needed may already have happened). [found]: None = not found yet,
+   Some k = k more levels to look at. *)
+Fixpoint bfs (n : nat) (ev : event) (frontier : list cstate) (seen : list (list nat)) (found : option nat)
+  : list cstate :=
+  match n with
+  | O => []
+  | S n' =>
+    let res := flat_map (goal ev) frontier in
+    let found' := match found with
+                  | None => match res with [] => None | _ => Some extra_depth end
+                  | Some k => Some (pred k)
+                  end in
+    match found' with
+    | Some O => res
+    | _ =>
+      match frontier with
+      | [] => res
+      | _ =>
+        let next := dedupe seen (flat_map silent_succ frontier) in
+        res ++ bfs n' ev next (map fingerprint next ++ seen) found'
+      end
+    end
+  end.
+
+Definition replay_event (st : cstate) (ev : event) : list cstate :=
+  bfs (S max_depth) ev [st] [fingerprint st] None.
 
 Definition beam := 40.
 
